@@ -1,8 +1,89 @@
 import Driver.Proto
+import Verif.Spec.SvgPath
+import Verif.Spec.SvgHazard
+import Verif.Model.SvgPath
 /-! driver handlers for property C05 (ops `model.*`, `spec.*`, `trig.*`) -/
 namespace Verif.Driver.C05
-open Verif Verif.Driver
+open Verif Verif.Driver Verif.Spec.SvgPath
 
-def handlers : List (String × Handler) := []
+def ratStr (q : Rat) : String :=
+  if q.den == 1 then toString q.num else s!"{q.num}/{q.den}"
+def ptStr (p : Pt) : String := s!"({ratStr p.1},{ratStr p.2})"
+def bStr (b : Bool) : String := if b then "1" else "0"
+def segStr : Seg → String
+  | .move p => s!"M{ptStr p}"
+  | .line a b => s!"L{ptStr a}{ptStr b}"
+  | .cubic a c1 c2 b => s!"C{ptStr a}{ptStr c1}{ptStr c2}{ptStr b}"
+  | .quad a c b => s!"Q{ptStr a}{ptStr c}{ptStr b}"
+  | .arc a rx ry rot l s b => s!"A{ptStr a}[{ratStr rx},{ratStr ry},{ratStr rot},{bStr l},{bStr s}]{ptStr b}"
+  | .close a b => s!"Z{ptStr a}{ptStr b}"
+
+/-- exponents are bounded so that a stray huge exponent cannot make the exact model allocate 10^9 digits -/
+def expsSmall : List Char → Bool
+  | [] => true
+  | c :: r =>
+    if isExpChar c then
+      let r' := match r with | '+' :: t => t | '-' :: t => t | t => t
+      (r'.takeWhile isDigit).length ≤ 4 && expsSmall r
+    else expsSmall r
+
+/-- `model.c05.shorten path prec newPrec` → output bytes of the model -/
+def shortenH : Handler := fun args => do
+  let d ← argChars args 0
+  let prec ← argInt args 1
+  let np ← argInt args 2
+  if !expsSmall d then .error "exponent out of the driver's range"
+  else .ok (charsToBytes (Model.SvgPath.shortenWith (Model.SvgPath.goPr prec np) d))
+
+/-- `model.c05.number lexeme prec` -/
+def numberH : Handler := fun args => do
+  let s ← argChars args 0
+  let prec ← argInt args 1
+  .ok (charsToBytes (Model.SvgNum.number s prec))
+
+/-- `model.c05.fmtg decimal-lexeme` → AppendFloat(v,'g',-1,64) of the exact value -/
+def fmtgH : Handler := fun args => do
+  let s ← argChars args 0
+  if !expsSmall s then .error "exponent out of the driver's range"
+  else .ok (charsToBytes (Model.SvgNum.fmtG (numVal s)))
+
+/-- `spec.c05.holds in out` → `[validIn, validOut, equiv, hazard]` -/
+def holdsH : Handler := fun args => do
+  let i ← argChars args 0
+  let o ← argChars args 1
+  if !expsSmall i || !expsSmall o then .error "exponent out of the driver's range" else
+  let pi := parse i
+  let po := parse o
+  let vi := match pi with | some cs => validCmds cs | none => false
+  let vo := po.isSome
+  let eq := match pi, po with
+    | some ci, some co => equiv (absSegments co) (absSegments ci)
+    | _, _ => false
+  let hz := (match pi with | some ci => Spec.SvgHazard.hazards ci | none => []) ++
+    (if Spec.SvgHazard.trailDot i then ["traildot"] else [])
+  .ok (listReply [boolBytes vi, boolBytes vo, boolBytes eq, strBytes (",".intercalate hz)])
+
+/-- `spec.c05.segs path` → normalised absolute segments, human readable (for finding reports) -/
+def segsH : Handler := fun args => do
+  let i ← argChars args 0
+  if !expsSmall i then .error "exponent out of the driver's range" else
+  match parse i with
+  | some cs => .ok (strBytes (" ".intercalate ((norm (absSegments cs)).map segStr)))
+  | none => .error "not path data"
+
+/-- `spec.c05.lex path` → 1 iff the string lexes and parses as path data -/
+def lexH : Handler := fun args => do
+  let i ← argChars args 0
+  .ok (boolBytes (parse i).isSome)
+
+/-- `spec.c05.goodnum s` → 1 iff `s` satisfies the printed-number shape contract -/
+def goodNumH : Handler := fun args => do
+  let s ← argChars args 0
+  .ok (boolBytes (Spec.SvgHazard.goodNum s))
+
+def handlers : List (String × Handler) :=
+  [("model.c05.shorten", shortenH), ("model.c05.number", numberH), ("model.c05.fmtg", fmtgH),
+   ("spec.c05.holds", holdsH), ("spec.c05.segs", segsH), ("spec.c05.lex", lexH),
+   ("spec.c05.goodnum", goodNumH)]
 
 end Verif.Driver.C05
